@@ -8,7 +8,7 @@
 EXTENDS Naturals, Sequences, FiniteSets, TLC, Json
 
 CONSTANTS Msgs,      \* subset of DOMAIN Base
-          Muts,      \* subset of {"none", "trunc", "byte", "grow", "lenfield"}
+          Muts,      \* subset of {"none", "trunc", "cutfix", "byte", "grow", "attrtrunc", "nlritrunc", "captrunc"}
           ByteVals,  \* values written by the "byte" mutation
           OptSets    \* subset of 0..15: bit 0 add-path IPv4, bit 1 add-path IPv6, bit 2 4-octet ASN, bit 3 extended next hop
 
@@ -25,48 +25,74 @@ Hdr(type, body) == Rep(255, 16) \o U16(19 + Len(body)) \o <<type>> \o body
 Attr(flags, type, v) == IF Len(v) > 255 THEN <<flags + 16, type>> \o U16(Len(v)) \o v ELSE <<flags, type, Len(v)>> \o v
 Update(wd, attrs, nlri) == Hdr(2, U16(Len(wd)) \o wd \o U16(Len(attrs)) \o attrs \o nlri)
 
-Origin == Attr(64, 1, <<0>>)
-ASPath4 == Attr(64, 2, <<2, 2>> \o U32(65001) \o U32(65002) \o <<1, 1>> \o U32(65003))     \* AS_SEQUENCE + AS_SET, 4-octet
-ASPath2 == Attr(64, 2, <<2, 2>> \o U16(65001) \o U16(65002))
-NextHop == Attr(64, 3, <<10, 0, 0, 1>>)
-MED == Attr(128, 4, U32(77))
-LocalPref == Attr(64, 5, U32(100))
-Atomic == Attr(64, 6, <<>>)
-Aggregator == Attr(192, 7, U16(65001) \o <<10, 0, 0, 9>>)
-Communities == Attr(192, 8, U32(1) \o <<255, 255, 255, 1>>)
-OriginatorID == Attr(128, 9, U32(9))
-ClusterList == Attr(128, 10, U32(1) \o U32(2))
-LargeComm == Attr(192, 32, U32(1) \o U32(2) \o U32(3))
-OTC == Attr(192, 35, U32(65001))
-Unknown == Attr(192, 99, Rep(7, 5))
-UnknownLong == Attr(192, 100, Rep(9, 300))
+(* attributes as <<flags, type, value>>; the encoder adds the length (extended length for values over 255 bytes) *)
+A(flags, type, v) == <<flags, type, v>>
+Enc(a) == Attr(a[1], a[2], a[3])
+RECURSIVE EncAll(_)
+EncAll(as) == IF as = <<>> THEN <<>> ELSE Enc(Head(as)) \o EncAll(Tail(as))
+
+Origin == A(64, 1, <<0>>)
+ASPath4 == A(64, 2, <<2, 2>> \o U32(65001) \o U32(65002) \o <<1, 1>> \o U32(65003))     \* AS_SEQUENCE + AS_SET, 4-octet
+ASPath2 == A(64, 2, <<2, 2>> \o U16(65001) \o U16(65002))
+NextHop == A(64, 3, <<10, 0, 0, 1>>)
+MED == A(128, 4, U32(77))
+LocalPref == A(64, 5, U32(100))
+Atomic == A(64, 6, <<>>)
+Aggregator == A(192, 7, U16(65001) \o <<10, 0, 0, 9>>)
+Communities == A(192, 8, U32(1) \o <<255, 255, 255, 1>>)
+OriginatorID == A(128, 9, U32(9))
+ClusterList == A(128, 10, U32(1) \o U32(2))
+LargeComm == A(192, 32, U32(1) \o U32(2) \o U32(3))
+OTC == A(192, 35, U32(65001))
+Unknown == A(192, 99, Rep(7, 5))
+UnknownLong == A(192, 100, Rep(9, 300))
 V6NextHop == <<32, 1, 13, 184>> \o Rep(0, 11) \o <<1>>
-MPReach6 == Attr(128, 14, <<0, 2, 1, 16>> \o V6NextHop \o <<0>> \o <<48, 32, 1, 13, 184, 0, 1>> \o <<64, 32, 1, 13, 184, 0, 2, 0, 3>>)
-MPReach6AP == Attr(128, 14, <<0, 2, 1, 16>> \o V6NextHop \o <<0>> \o U32(7) \o <<48, 32, 1, 13, 184, 0, 1>>)
-MPUnreach6 == Attr(128, 15, <<0, 2, 1>> \o <<48, 32, 1, 13, 184, 0, 1>>)
-MPReach4 == Attr(128, 14, <<0, 1, 1, 4, 10, 0, 0, 1, 0>> \o <<24, 10, 1, 2>>)
+V6LinkLocal == <<254, 128>> \o Rep(0, 13) \o <<1>>
+MPReach6 == A(128, 14, <<0, 2, 1, 16>> \o V6NextHop \o <<0>> \o <<48, 32, 1, 13, 184, 0, 1>> \o <<64, 32, 1, 13, 184, 0, 2, 0, 3>>)
+MPReach6LL == A(128, 14, <<0, 2, 1, 32>> \o V6NextHop \o V6LinkLocal \o <<0>> \o <<48, 32, 1, 13, 184, 0, 1>>)   \* global + link-local next hop
+MPReach6AP == A(128, 14, <<0, 2, 1, 16>> \o V6NextHop \o <<0>> \o U32(7) \o <<48, 32, 1, 13, 184, 0, 1>>)
+MPUnreach6 == A(128, 15, <<0, 2, 1>> \o <<48, 32, 1, 13, 184, 0, 1>>)
+MPReach4 == A(128, 14, <<0, 1, 1, 4, 10, 0, 0, 1, 0>> \o <<24, 10, 1, 2>>)
+MPUnreach4 == A(128, 15, <<0, 1, 1>> \o <<24, 10, 1, 2>> \o <<16, 10, 9>>)
+(* labeled unicast (SAFI 4): prefix length counts the 24 label bits; two labels, the second with bottom-of-stack *)
+MPReach6LU == A(128, 14, <<0, 2, 4, 16>> \o V6NextHop \o <<0>> \o <<96, 0, 1, 0, 0, 2, 1, 32, 1, 13, 184, 0, 1>>)
+MPUnreach6LU == A(128, 15, <<0, 2, 4>> \o <<72, 128, 0, 0, 32, 1, 13, 184, 0, 1>>)
+MPReach4LU == A(128, 14, <<0, 1, 4, 4, 10, 0, 0, 1, 0>> \o <<48, 0, 1, 1, 10, 1, 2>>)
 
 Cap(code, v) == <<code, Len(v)>> \o v
-Caps == Cat(<< Cap(1, <<0, 1, 0, 1>>), Cap(1, <<0, 2, 0, 1>>), Cap(65, U32(65001)), Cap(69, <<0, 1, 1, 3, 0, 2, 1, 3>>),
-               Cap(9, <<3>>), Cap(5, <<0, 1, 0, 1, 0, 2>>), Cap(70, <<>>), Cap(200, <<1, 2, 3>>) >>)
+C(code, v) == <<code, v>>
+RECURSIVE EncCaps(_)
+EncCaps(cs) == IF cs = <<>> THEN <<>> ELSE Cap(Head(cs)[1], Head(cs)[2]) \o EncCaps(Tail(cs))
+CapList == << C(1, <<0, 1, 0, 1>>), C(1, <<0, 2, 0, 1>>), C(65, U32(65001)), C(69, <<0, 1, 1, 3, 0, 2, 1, 3>>),
+              C(9, <<3>>), C(5, <<0, 1, 0, 1, 0, 2>>), C(70, <<>>), C(200, <<1, 2, 3>>) >>
 Open(caps) == Hdr(1, <<4>> \o U16(65001) \o U16(90) \o <<10, 0, 0, 1>> \o
                      (IF caps = <<>> THEN <<0>> ELSE <<Len(caps) + 2, 2, Len(caps)>> \o caps))
 
-Base == [ keepalive  |-> Hdr(4, <<>>),
+(* UPDATEs as structures: withdrawn routes, attribute list, NLRI *)
+Upd(wd, attrs, nlri) == [wd |-> wd, attrs |-> attrs, nlri |-> nlri]
+UpdDef == [ updV4      |-> Upd(<<16, 10, 9>>, <<Origin, ASPath4, NextHop, MED, LocalPref, Communities>>, <<24, 10, 1, 2>> \o <<32, 10, 1, 2, 3>> \o <<0>>),
+            updV4as2   |-> Upd(<<>>, <<Origin, ASPath2, NextHop>>, <<8, 10>>),
+            updV4ap    |-> Upd(U32(1) \o <<16, 10, 9>>, <<Origin, ASPath4, NextHop>>, U32(2) \o <<24, 10, 1, 2>>),
+            updAllAttr |-> Upd(<<>>, <<Origin, ASPath4, NextHop, MED, LocalPref, Atomic, Aggregator, Communities, OriginatorID, ClusterList,
+                                      LargeComm, OTC, Unknown>>, <<24, 10, 1, 2>>),
+            updLong    |-> Upd(<<>>, <<Origin, ASPath4, NextHop, UnknownLong>>, <<24, 10, 1, 2>>),
+            updV6      |-> Upd(<<>>, <<MPReach6, Origin, ASPath4>>, <<>>),
+            updV6ll    |-> Upd(<<>>, <<MPReach6LL, Origin, ASPath4>>, <<>>),
+            updV6ap    |-> Upd(<<>>, <<MPReach6AP, Origin, ASPath4>>, <<>>),
+            updV6wd    |-> Upd(<<>>, <<MPUnreach6>>, <<>>),
+            updMP4     |-> Upd(<<>>, <<MPReach4, Origin, ASPath4>>, <<>>),
+            updMP4wd   |-> Upd(<<>>, <<MPUnreach4>>, <<>>),
+            updV6lu    |-> Upd(<<>>, <<MPReach6LU, Origin, ASPath4>>, <<>>),
+            updV6luwd  |-> Upd(<<>>, <<MPUnreach6LU>>, <<>>),
+            updV4lu    |-> Upd(<<>>, <<MPReach4LU, Origin, ASPath4>>, <<>>),
+            eor        |-> Upd(<<>>, <<>>, <<>>) ]
+EncUpd(u) == Update(u.wd, EncAll(u.attrs), u.nlri)
+
+Base == [ m \in DOMAIN UpdDef |-> EncUpd(UpdDef[m]) ] @@
+        [ keepalive  |-> Hdr(4, <<>>),
           notif      |-> Hdr(3, <<6, 2, 1, 2, 3>>),
-          open       |-> Open(Caps),
-          openNoCaps |-> Open(<<>>),
-          updV4      |-> Update(<<16, 10, 9>>, Cat(<<Origin, ASPath4, NextHop, MED, LocalPref, Communities>>), <<24, 10, 1, 2>> \o <<32, 10, 1, 2, 3>> \o <<0>>),
-          updV4as2   |-> Update(<<>>, Cat(<<Origin, ASPath2, NextHop>>), <<8, 10>>),
-          updV4ap    |-> Update(U32(1) \o <<16, 10, 9>>, Cat(<<Origin, ASPath4, NextHop>>), U32(2) \o <<24, 10, 1, 2>>),
-          updAllAttr |-> Update(<<>>, Cat(<<Origin, ASPath4, NextHop, MED, LocalPref, Atomic, Aggregator, Communities, OriginatorID, ClusterList,
-                                           LargeComm, OTC, Unknown>>), <<24, 10, 1, 2>>),
-          updLong    |-> Update(<<>>, Cat(<<Origin, ASPath4, NextHop, UnknownLong>>), <<24, 10, 1, 2>>),
-          updV6      |-> Update(<<>>, Cat(<<MPReach6, Origin, ASPath4>>), <<>>),
-          updV6ap    |-> Update(<<>>, Cat(<<MPReach6AP, Origin, ASPath4>>), <<>>),
-          updV6wd    |-> Update(<<>>, MPUnreach6, <<>>),
-          updMP4     |-> Update(<<>>, Cat(<<MPReach4, Origin, ASPath4>>), <<>>),
-          eor        |-> Update(<<>>, <<>>, <<>>) ]
+          open       |-> Open(EncCaps(CapList)),
+          openNoCaps |-> Open(<<>>) ]
 
 -----------------------------------------------------------------------------
 SubSeqSafe(s, a, b) == IF b < a THEN <<>> ELSE SubSeq(s, a, b)
@@ -78,24 +104,51 @@ Grow(s, k) == LET n == Len(s) + k IN [s EXCEPT ![17] = n \div 256, ![18] = n % 2
 LenOf == [m \in DOMAIN Base |-> Len(Base[m])] @@ <<>>
 BaseOf == Base @@ <<>>
 
-Cases == UNION { { [msg |-> m, mut |-> "none", k |-> 0, v |-> 0] : x \in IF "none" \in Muts THEN {1} ELSE {} }
-                 \cup { [msg |-> m, mut |-> "trunc", k |-> k, v |-> 0] : k \in IF "trunc" \in Muts THEN 0..(LenOf[m] - 1) ELSE {} }
-                 \cup { [msg |-> m, mut |-> "byte", k |-> kv[1], v |-> kv[2]] :
-                           kv \in IF "byte" \in Muts THEN (1..LenOf[m]) \X ByteVals ELSE {} }
-                 \cup { [msg |-> m, mut |-> "grow", k |-> k, v |-> 0] : k \in IF "grow" \in Muts THEN {1, 2, 7, 300, 4000} ELSE {} }
+(* truncate the message and make the header agree (what is inside then announces more than there is) *)
+CutFix(s, k) == LET t == Truncate(s, k) IN [t EXCEPT ![17] = k \div 256, ![18] = k % 256]
+(* structural truncations: ONE field is shorter than its content expects, all enclosing lengths are right *)
+ReplaceAt(seq, i, x) == [seq EXCEPT ![i] = x]
+AttrTrunc(u, i, n) == EncUpd([u EXCEPT !.attrs = ReplaceAt(@, i, A(@[i][1], @[i][2], Truncate(@[i][3], n)))])
+NlriTrunc(u, n) == EncUpd([u EXCEPT !.nlri = Truncate(@, n)])
+WdTrunc(u, n) == EncUpd([u EXCEPT !.wd = Truncate(@, n)])
+CapTrunc(i, n) == Open(EncCaps(ReplaceAt(CapList, i, C(CapList[i][1], Truncate(CapList[i][2], n)))))
+
+IsUpd(m) == m \in DOMAIN UpdDef
+Case(m, mut, k, v) == [msg |-> m, mut |-> mut, k |-> k, v |-> v]
+Cases == UNION { { Case(m, "none", 0, 0) : x \in IF "none" \in Muts THEN {1} ELSE {} }
+                 \cup { Case(m, "trunc", k, 0) : k \in IF "trunc" \in Muts THEN 0..(LenOf[m] - 1) ELSE {} }
+                 \cup { Case(m, "cutfix", k, 0) : k \in IF "cutfix" \in Muts THEN 19..(LenOf[m] - 1) ELSE {} }
+                 \cup { Case(m, "byte", kv[1], kv[2]) : kv \in IF "byte" \in Muts THEN (1..LenOf[m]) \X ByteVals ELSE {} }
+                 \cup { Case(m, "grow", k, 0) : k \in IF "grow" \in Muts THEN {1, 2, 7, 300, 4000} ELSE {} }
+                 \cup (IF "attrtrunc" \in Muts /\ IsUpd(m)
+                       THEN UNION { { Case(m, "attrtrunc", i, n) : n \in 0..(Len(UpdDef[m].attrs[i][3]) - 1) } : i \in 1..Len(UpdDef[m].attrs) }
+                       ELSE {})
+                 \cup (IF "nlritrunc" \in Muts /\ IsUpd(m)
+                       THEN { Case(m, "nlritrunc", n, 0) : n \in 0..(Len(UpdDef[m].nlri) - 1) } \cup { Case(m, "wdtrunc", n, 0) : n \in 0..(Len(UpdDef[m].wd) - 1) }
+                       ELSE {})
+                 \cup (IF "captrunc" \in Muts /\ m = "open"
+                       THEN UNION { { Case(m, "captrunc", i, n) : n \in 0..(Len(CapList[i][2]) - 1) } : i \in 1..Len(CapList) }
+                       ELSE {})
                : m \in Msgs }
 
 Bytes(x) == LET b == BaseOf[x.msg] IN
             CASE x.mut = "none" -> b
               [] x.mut = "trunc" -> Truncate(b, x.k)
+              [] x.mut = "cutfix" -> CutFix(b, x.k)
               [] x.mut = "byte" -> SetByte(b, x.k, x.v)
               [] x.mut = "grow" -> Grow(b, x.k)
+              [] x.mut = "attrtrunc" -> AttrTrunc(UpdDef[x.msg], x.k, x.v)
+              [] x.mut = "nlritrunc" -> NlriTrunc(UpdDef[x.msg], x.k)
+              [] x.mut = "wdtrunc" -> WdTrunc(UpdDef[x.msg], x.k)
+              [] x.mut = "captrunc" -> CapTrunc(x.k, x.v)
 
 Init == c \in Cases \X OptSets /\ bytes = Bytes(c[1])
 Next == UNCHANGED <<c, bytes>>
 
 (* laws of the grammar: every base message is framed correctly and within 4096 bytes; mutations stay bytes *)
 WellFramed == LET n == LenOf[c[1].msg] IN n >= 19 /\ n <= 4096 /\ (c[1].mut = "none" => bytes[17] * 256 + bytes[18] = n)
+(* the structural truncations keep the outer framing right *)
+OuterFramed == c[1].mut \in {"cutfix", "attrtrunc", "nlritrunc", "wdtrunc", "captrunc"} => bytes[17] * 256 + bytes[18] = Len(bytes)
 IsBytes == \A i \in 1..Len(bytes) : bytes[i] \in 0..255
 
 EmitCase == PrintT("BEH " \o ToJson([a |-> "Decode", msg |-> c[1].msg, mut |-> c[1].mut, k |-> c[1].k, v |-> c[1].v, opts |-> c[2],
